@@ -11,6 +11,36 @@ E3 = "exhaustive / preemption-bounded prange schedule enumeration on source-deri
 
 # id -> (built, category, technique, text, note, design_ref)
 CHECKS = {
+    "C03": (
+        True,
+        "model_checking",
+        E1 + " with the M3 point-location oracle + " + E3,
+        "Inputs: leaf sets of 2-D and 3-D AMR trees (complete or with 1-2 holes) x origins on an off-face lattice (plus an on-face "
+        "block) x orientations (axis letters, triples in several cases, every lattice normal of {-2..2}^3 in the thorough tier, "
+        "VectorBasis) x windows from 1/16 of the box to twice the box (dx=dy, dx!=dy, omitted; in cm, m, au with different position "
+        "units and box sizes) x resolutions 1,2,3,4,8 and {x:3,y:5}, scalar and vector layers: every pixel of every map(plot=False) is "
+        "compared with brute-force point location at origin + x_i u + y_j v using the returned pixel centres (strictly inside -> that "
+        "cell's value; outside every cell -> masked; within 1e-9 box of a face -> any touching cell). Schedules: evaluate_on_grid's "
+        "thread bodies (AST-derived from the current source) run on arguments recorded from real map() calls; every partition of 4-8 "
+        "cells among 2-3 virtual threads: off-face harnesses are closed by the conflict certificate, on-face ones are enumerated with "
+        "0-2 preemptions and every final image must lie in the per-pixel allowed set.",
+        "Trusted: M3 oracle, get_direction's basis (checked by C18). Schedule exploration is on source-derived bodies under sequential "
+        "consistency, not on numba's compiled threads.",
+        "DESIGN.md §3 C03",
+    ),
+    "C11": (
+        True,
+        "model_checking",
+        E1 + " with the M3 column-sampling oracle + " + E3,
+        "Inputs: meshes as in C03 x slab thickness from one pixel to the box (incl. slabs far thinner than the cells and planes far "
+        "from cell centres) x windows x resolutions (int, dict with and without z) x the eight reductions x axis and oblique "
+        "orientations x unit combinations: each pixel is predicted by locating the depth samples z_k = -dz/2 + (k+1/2)dz/nz with brute "
+        "force, reducing the column with the same numpy function, multiplying sum/nansum by the depth step and checking the unit "
+        "dimension (layer x length) through M2; mask <=> NaN reduction. Both integers next to dz/pixel are accepted as default depth "
+        "resolution. Schedules: slab harnesses with 2-3 depth samples on evaluate_on_grid as in C03.",
+        "Columns containing a sample within 1e-9 box of a face are skipped. dz below one pixel is outside the statement.",
+        "DESIGN.md §3 C11",
+    ),
     "C05": (
         True,
         "model_checking",
